@@ -283,3 +283,30 @@ pub(crate) fn last_request() -> k::Sqe {
         }
     }
 }
+
+/// Stub for `io_uring::op::poll` that only ever *submits*: runs the real
+/// fill_submission on the state's resources/arguments, records the request and
+/// returns Pending. For harnesses where the operation can only be (re)started.
+pub(crate) fn poll_model_submit_only<T, O, R, A, Out>(
+    target: &T,
+    state: &mut State<O, R, A>,
+    _ctx: &mut task::Context<'_>,
+    fill_submission: impl Fn(&T, &mut R, &mut A, &mut Submission),
+    _map_ok: impl Fn(&T, R, OpReturn) -> Out,
+    _fallback: impl Fn(&T, R, &mut A, std::io::Error) -> std::io::Result<Out>,
+) -> task::Poll<std::io::Result<Out>>
+where
+    T: OpTarget,
+    O: OpResult,
+{
+    let data = unsafe { state.data.as_mut() };
+    let resources = unsafe { data.tail.resources.get_mut().assume_init_mut() };
+    let mut sub = k::new_submission();
+    fill_submission(target, resources, &mut data.tail.args, &mut sub);
+    target.set_flags(&mut sub);
+    unsafe {
+        MODEL_REQUEST = k::submission_view(&sub);
+        MODEL_REQUESTS += 1;
+    }
+    task::Poll::Pending
+}
